@@ -96,6 +96,7 @@ func c16(r *core.Report) {
 	info := pk.TypesInfo
 	r.Assumption("equivalence of verdicts before and after, injectivity of generated names beyond the resolver's inputs and the reload with external references disallowed are not decided")
 	fam, adders := internalizeFamily(p)
+	c16AddFirst(r, adders)
 
 	units, _ := refUnits(p, "openapi3")
 	r.RunRule("C16.cover", "internalising reaches every reference position: for every path of fields from a unit to a field that can hold a $ref (same enumeration as C02.cover), the unit's deref function hands that field to the add*ToSpec of the position's wrapper (path items: to derefPaths); units without reference positions of their own need no walker", 29, func() {
@@ -783,5 +784,104 @@ func c16SameTarget(r *core.Report) {
 			}
 		})
 		r.Check(okCmp, "sametarget:referenceURIMatch/full-text", p.Pos(fd.Pos()), "compares the full URL text", "referenceURIMatch no longer compares the complete text of the two locations")
+	})
+}
+
+// c16AddFirst: a reference is rewritten wherever it stands, whether or not its target was seen
+// before. The visited sets are keyed by the target object: they may cut the descent INTO an object
+// already walked, but the reference that led there must have been handed to add*ToSpec first, or
+// the second and later references to one external object keep their external $ref.
+func c16AddFirst(r *core.Report, adders map[*types.Named]*types.Func) {
+	p := r.Prog
+	info := p.Pkg("openapi3").TypesInfo
+	r.RunRule("C16.addfirst", "every reference is rewritten, also the second one to the same object: no call of an add*ToSpec function is conditional on a visited-set test (a bool method of T that looks its pointer argument up in a map of T and records it) of the object that the reference being added leads to — the test may only guard the descent that follows the call", 15, func() {
+		isAdder := map[*types.Func]bool{}
+		for _, f := range adders {
+			isAdder[f] = true
+		}
+		// visited-set tests: bool methods with one pointer parameter whose body indexes a map with it
+		// and stores into the same map
+		visitedTest := map[*types.Func]bool{}
+		for _, d := range p.AllDecls("openapi3") {
+			if d.Recv == nil || d.Type.Results == nil || len(d.Type.Results.List) != 1 || d.Type.Params.NumFields() != 1 || d.Body == nil {
+				continue
+			}
+			if b, ok := info.TypeOf(d.Type.Results.List[0].Type).Underlying().(*types.Basic); !ok || b.Kind() != types.Bool {
+				continue
+			}
+			if len(d.Type.Params.List[0].Names) != 1 {
+				continue
+			}
+			prm := info.ObjectOf(d.Type.Params.List[0].Names[0])
+			lookups, stores := false, false
+			ast.Inspect(d.Body, func(n ast.Node) bool {
+				switch x := n.(type) {
+				case *ast.IndexExpr:
+					if id, ok := ast.Unparen(x.Index).(*ast.Ident); ok && info.ObjectOf(id) == prm {
+						if _, isMap := info.TypeOf(x.X).Underlying().(*types.Map); isMap {
+							lookups = true
+						}
+					}
+				case *ast.AssignStmt:
+					for _, l := range x.Lhs {
+						if ix, ok := ast.Unparen(l).(*ast.IndexExpr); ok {
+							if id, ok := ast.Unparen(ix.Index).(*ast.Ident); ok && info.ObjectOf(id) == prm {
+								stores = true
+							}
+						}
+					}
+				}
+				return true
+			})
+			if lookups && stores {
+				if f, ok := info.Defs[d.Name].(*types.Func); ok {
+					visitedTest[f] = true
+				}
+			}
+		}
+		if len(visitedTest) < 2 {
+			core.Fail("only %d visited-set test methods found in openapi3", len(visitedTest))
+		}
+		perFn := map[string]int{}
+		for _, d := range p.AllDecls("openapi3") {
+			if d.Body == nil {
+				continue
+			}
+			ast.Inspect(d.Body, func(n ast.Node) bool {
+				c, ok := n.(*ast.CallExpr)
+				if !ok {
+					return true
+				}
+				f := core.CalleeOf(info, c)
+				if f == nil || !isAdder[f] {
+					return true
+				}
+				fname := core.FuncName(d)
+				perFn[fname+f.Name()]++
+				key := fmt.Sprintf("addfirst:%s/%s#%d", fname, f.Name(), perFn[fname+f.Name()])
+				bad := ""
+				for _, a := range core.Atoms(core.GuardsAt(info, d.Body, c)) {
+					ast.Inspect(a.Expr, func(m ast.Node) bool {
+						if vc, ok := m.(*ast.CallExpr); ok && len(vc.Args) == 1 && len(c.Args) > 0 {
+							if vf := core.CalleeOf(info, vc); vf != nil && visitedTest[vf] {
+								// the test is about the object the reference being added leads to
+								// (same root variable), not about the object that contains the reference
+								tr, ar := core.RootIdent(vc.Args[0]), core.RootIdent(c.Args[0])
+								if tr != nil && ar != nil && info.ObjectOf(tr) == info.ObjectOf(ar) {
+									bad = core.ExprStr(vc)
+								}
+							}
+						}
+						return true
+					})
+				}
+				if bad != "" {
+					r.Bad(key, p.Pos(c.Pos()), fmt.Sprintf("%s is reached only when %s says the target was not seen before: the visited set is keyed by the target object, so every later reference to the same external object is skipped before it is rewritten and keeps its external $ref", f.Name(), bad))
+				} else {
+					r.OK(key, p.Pos(c.Pos()), "not conditional on a visited-set test")
+				}
+				return true
+			})
+		}
 	})
 }
